@@ -111,4 +111,11 @@ TEXT["C02"] = dict(engine="verus+kani+engineB",
          "Ipv4Subnet::{new,netmask,network,broadcast,contains} complete over all 2^32 x 256 inputs (Kani).",
    note="NOT decided: apply-range (inclusive range loop: no vstd ghost-iterator spec; yaml containers block Kani), reservation subtraction at the end of parse_policy, policy override of address sets (C11), YAML -> values.")
 
+TEXT["C19"] = dict(engine="verus+kani",
+   technique="Verus no-panic/no-overflow obligations on the extracted leaf parsers (type_to_name, parse_i64/string/boolean, hexdigit, str_duration incl. its closure and chars loop) + consumers' preconditions discharged for every value the loader admits (Kani complete prefix harnesses, Verus range slices, router)",
+   level="Unbounded deductive proof that the leaf parsers under contract are total: every unwrap, index, cast and arithmetic operation is discharged for all YAML values / all strings of any length "
+         "(str_duration: digits*10+d, n*unit and the running sum use checked arithmetic; a unit without number is an error). Accepted => safe: Prefix4/Prefix6/Ipv4Subnet operations are total for every "
+         "prefix length the loader admits (complete Kani), the host-range expansions cannot overflow for any length 0..=32, a forward route without servers yields an error reply.",
+   note="NOT decided: totality of yaml_rust::YamlLoader and of load_config_from_string's dispatch as a whole; str_prefix*/str_hwaddr/parse_array/parse_routes bodies (split/parse/iterator chains); that every manual example loads (that is a test, and the suite has it).")
+
 NA = {}
